@@ -224,6 +224,13 @@ fn const_value_j<'tcx>(tcx: TyCtxt<'tcx>, v: ConstValue, ty: Ty<'tcx>) -> J {
                     }
                 }
             }
+            // `&STATIC`: a reference to a static item
+            {
+                let (prov, _off) = ptr.prov_and_relative_offset();
+                if let mir::interpret::GlobalAlloc::Static(sdid) = tcx.global_alloc(prov.alloc_id()) {
+                    return J::Obj(vec![("static", J::s(path_of(tcx, sdid))), ("mutable", J::Bool(tcx.is_mutable_static(sdid)))]);
+                }
+            }
             J::Null
         }
         ConstValue::Slice { .. } => {
